@@ -197,6 +197,39 @@ fn wf<F: PF>(c: &Ctx, x: &F, what: &str) -> Result<(), String> {
     }
     Ok(())
 }
+/// Runs a library function that is documented as variable-time on a persistent helper thread, so
+/// that a call that never returns is reported as a failure (HANG) instead of blocking the search.
+struct Guard<A: Send + 'static, T: Send + 'static> {
+    f: fn(A) -> T,
+    w: std::sync::Mutex<Option<(std::sync::mpsc::Sender<A>, std::sync::mpsc::Receiver<Result<T, String>>)>>,
+}
+impl<A: Send + 'static, T: Send + 'static> Guard<A, T> {
+    fn new(f: fn(A) -> T) -> Self { Guard { f, w: std::sync::Mutex::new(None) } }
+    fn call(&self, what: &str, a: A) -> Result<T, String> {
+        use std::sync::mpsc::{channel, RecvTimeoutError};
+        let mut g = self.w.lock().unwrap_or_else(|e| e.into_inner());
+        if g.is_none() {
+            let (txa, rxa) = channel::<A>(); let (txt, rxt) = channel::<Result<T, String>>(); let f = self.f;
+            std::thread::spawn(move || {
+                while let Ok(a) = rxa.recv() {
+                    let r = std::panic::catch_unwind(std::panic::AssertUnwindSafe(|| f(a))).map_err(|e| {
+                        if let Some(s) = e.downcast_ref::<String>() { s.clone() } else if let Some(s) = e.downcast_ref::<&str>() { s.to_string() } else { "panic".into() } });
+                    if txt.send(r).is_err() { break; }
+                }
+            });
+            *g = Some((txa, rxt));
+        }
+        let (tx, rx) = g.as_ref().unwrap();
+        if tx.send(a).is_err() { *g = None; return Err(format!("PANIC: {} helper thread died", what)); }
+        match rx.recv_timeout(std::time::Duration::from_secs(3)) {
+            Ok(Ok(x)) => Ok(x),
+            Ok(Err(m)) => Err(format!("PANIC: {}: {}", what, m)),
+            Err(RecvTimeoutError::Timeout) => { *g = None; Err(format!("HANG: {} did not return within 3 s", what)) }
+            Err(RecvTimeoutError::Disconnected) => { *g = None; Err(format!("PANIC: inside {}", what)) }
+        }
+    }
+}
+
 /// check every result of an operator family against the expected value
 fn all_eq<F: PF>(c: &Ctx, rs: &[F], want: &BigInt, what: &str) -> Result<(), String> {
     for (i, r) in rs.iter().enumerate() {
@@ -632,9 +665,10 @@ fn reg_pf<F: PF>(v: &mut Vec<Case>, prefix: &str, tag: &str) {
             } });
     }
     if F::consts()[0].f_split128().is_some() {
+        let gd: Guard<F, (i128, i128)> = Guard::new(|a: F| a.f_split128().unwrap());
         case!("split", "split_vartime: k*c1' == c0' mod n, c1' != 0, (c0',c1') = (c0 + a*2^128, c1 + b*2^128) with |a|,|b| <= 0/1/2 per modulus size; zero -> (0,1); no panic", vec![el.clone()], |o, c| {
             let a = F::mk(o[0]); let k = fe(&a);
-            let (c0, c1) = a.f_split128().unwrap();
+            let (c0, c1) = gd.call("split_vartime", a)?;
             if k.sign() == Sign::NoSign { return chk(c0 == 0 && c1 == 1, || format!("split(0) = ({}, {})", c0, c1)); }
             let q2 = &c.q * &c.q;
             let rg: i32 = if q2 <= BigInt::from(3) << 506 { 0 } else if q2 <= BigInt::from(3) << 510 { 1 } else { 2 };
@@ -646,9 +680,10 @@ fn reg_pf<F: PF>(v: &mut Vec<Case>, prefix: &str, tag: &str) {
             Err(format!("split: k={:x} c0={} c1={} (no a,b in -{}..={} fits)", k, c0, c1, rg, rg)) });
     }
     if F::consts()[0].f_split_bytes().is_some() {
+        let gd: Guard<F, (Vec<u8>, Vec<u8>)> = Guard::new(|a: F| a.f_split_bytes().unwrap());
         case!("split", "split_vartime (gfgen): k*c1 == c0 mod p, c1 != 0 mod p, 3*c^4 < 4*p^2 for both; no panic", vec![el.clone()], |o, c| {
             let a = F::mk(o[0]); let k = fe(&a);
-            let (b0, b1) = a.f_split_bytes().unwrap();
+            let (b0, b1) = gd.call("split_vartime", a)?;
             let (c0, c1) = (BigInt::from_signed_bytes_le(&b0), BigInt::from_signed_bytes_le(&b1));
             let small = |x: &BigInt| BigInt::from(3) * x * x * x * x < BigInt::from(4) * &c.q * &c.q;
             chk(emod(&c1, &c.q).sign() != Sign::NoSign && emod(&(&k * &c1 - &c0), &c.q).sign() == Sign::NoSign && small(&c0) && small(&c1),
@@ -656,7 +691,275 @@ fn reg_pf<F: PF>(v: &mut Vec<Case>, prefix: &str, tag: &str) {
     }
 }
 
-// @@PART3@@
+// ------------------------------------------------------------------------
+// Binary fields: GF(2^127) = GF(2)[z]/(z^127 + z^63 + 1), GF(2^254) = GF(2^127)[u]/(u^2 + u + 1).
+// Reference arithmetic straight from the definition (shift-and-xor product, bit-by-bit reduction).
+
+const Z127: u128 = 1u128 << 127;
+const ZLOW: u128 = (1u128 << 63) | 1; // z^127 = z^63 + 1
+/// canonical (degree < 127) representative of a 128-bit pattern
+fn bnorm(x: u128) -> u128 { if x & Z127 != 0 { (x ^ Z127) ^ ZLOW } else { x } }
+/// product in GF(2^127) of two canonical values (u128 bit operations)
+fn bmul(a: u128, b: u128) -> u128 {
+    let mut w = [0u128; 2];
+    let mut bb = b;
+    while bb != 0 { let i = bb.trailing_zeros(); bb &= bb - 1; w[0] ^= a << i; if i > 0 { w[1] ^= a >> (128 - i); } }
+    let flip = |w: &mut [u128; 2], i: usize| w[i / 128] ^= 1u128 << (i % 128);
+    for i in (127..254).rev() {
+        if (w[i / 128] >> (i % 128)) & 1 == 1 { flip(&mut w, i); flip(&mut w, i - 127); flip(&mut w, i - 64); }
+    }
+    w[0]
+}
+/// same product with num-bigint bit operations (second, independent oracle for the mul case)
+fn bmul_big(a: u128, b: u128) -> u128 {
+    let (a, b) = (BigUint::from(a), BigUint::from(b));
+    let one = BigUint::from(1u8);
+    let m = (&one << 127u32) | (&one << 63u32) | &one;
+    let mut acc = BigUint::from(0u8);
+    for i in 0..127u64 { if b.bit(i) { acc ^= &a << i; } }
+    for i in (127..254u64).rev() { if acc.bit(i) { acc ^= &m << (i - 127); } }
+    let mut by = acc.to_bytes_le(); by.resize(16, 0);
+    u128::from_le_bytes(by[..16].try_into().unwrap())
+}
+fn bsq(a: u128) -> u128 { bmul(a, a) }
+fn bxsq(mut a: u128, n: u32) -> u128 { for _ in 0..n { a = bsq(a); } a }
+fn btrace(a: u128) -> u128 { let (mut t, mut x) = (0u128, a); for _ in 0..127 { t ^= x; x = bsq(x); } t }
+fn bhalftrace(a: u128) -> u128 { let (mut t, mut x) = (0u128, a); for i in 0..64 { t ^= x; if i < 63 { x = bsq(bsq(x)); } } t }
+type B2 = (u128, u128);
+fn b2mul(a: B2, b: B2) -> B2 { let t = bmul(a.1, b.1); (bmul(a.0, b.0) ^ t, bmul(a.0, b.1) ^ bmul(a.1, b.0) ^ t) }
+fn b2xsq(mut a: B2, n: u32) -> B2 { for _ in 0..n { a = b2mul(a, a); } a }
+fn b2trace(a: B2) -> B2 { let (mut t, mut x) = ((0u128, 0u128), a); for _ in 0..254 { t = (t.0 ^ x.0, t.1 ^ x.1); x = b2mul(x, x); } t }
+
+fn u128of(b: &[u8]) -> u128 { u128::from_le_bytes(b[..16].try_into().unwrap()) }
+fn b1(b: &[u8]) -> GFb127 { GFb127::w64le(u64of(b), u64of(&b[8..])) }
+fn b1v(x: &GFb127) -> Result<u128, String> { let v = u128::from_le_bytes(x.encode()); if v & Z127 != 0 { Err(format!("non-canonical encoding {:x}", v)) } else { Ok(v) } }
+fn b2(b: &[u8]) -> GFb254 { GFb254::w64le(u64of(b), u64of(&b[8..]), u64of(&b[16..]), u64of(&b[24..])) }
+fn b2v(x: &GFb254) -> Result<B2, String> {
+    let e = x.encode(); let v = (u128of(&e), u128of(&e[16..]));
+    if (v.0 | v.1) & Z127 != 0 { Err(format!("non-canonical encoding {}", hex(&e))) } else { Ok(v) }
+}
+fn b2in(b: &[u8]) -> B2 { (bnorm(u128of(b)), bnorm(u128of(&b[16..]))) }
+
+fn b1_list() -> Vec<u128> {
+    vec![0, 1, 2, 3, 1 << 63, 1 << 64, 1 << 126, Z127, Z127 | ZLOW, Z127 | 1, u128::MAX, u128::MAX >> 1, u64::MAX as u128, (u64::MAX as u128) << 64,
+         0x5555_5555_5555_5555_5555_5555_5555_5555, 0xAAAA_AAAA_AAAA_AAAA_AAAA_AAAA_AAAA_AAAA, 1 | (1 << 27), 1 | (1 << 54), ZLOW, (1 << 64) | (1 << 32), 1 << 62, 1 << 65]
+}
+fn b1_specials() -> Vec<Vec<u8>> { b1_list().iter().map(|x| x.to_le_bytes().to_vec()).collect() }
+fn b1_rand(r: &mut Rng) -> u128 {
+    let w = |r: &mut Rng| -> u64 { match r.below(10) { 0 => 0, 1 => u64::MAX, 2 => 1 << r.below(64), 3 => u64::MAX << r.below(64), 4 => u64::MAX >> r.below(64), 5 => 0x5555555555555555, 6 => 0xAAAAAAAAAAAAAAAA, 7 => 1 | (1 << 63), _ => r.next() } };
+    match r.below(8) {
+        0 => { let l = b1_list(); l[r.below(l.len() as u64) as usize] ^ (r.below(4) as u128) }
+        1 => 1u128 << r.below(128),
+        2 => (1u128 << r.below(128)) ^ (1u128 << r.below(128)) ^ if r.below(2) == 0 { Z127 } else { 0 },
+        _ => ((w(r) as u128) << 64) | w(r) as u128,
+    }
+}
+fn b1_random(r: &mut Rng) -> Vec<u8> { b1_rand(r).to_le_bytes().to_vec() }
+fn b2_specials() -> Vec<Vec<u8>> {
+    let l = [0u128, 1, 2, 1 << 63, 1 << 126, Z127, Z127 | ZLOW, u128::MAX, u128::MAX >> 1, 0x5555_5555_5555_5555_5555_5555_5555_5555, ZLOW, 1 << 64];
+    let mut v = Vec::new();
+    for a in l { for b in l { let mut w = a.to_le_bytes().to_vec(); w.extend_from_slice(&b.to_le_bytes()); v.push(w); } }
+    v
+}
+fn b2_random(r: &mut Rng) -> Vec<u8> {
+    let a = b1_rand(r); let b = match r.below(6) { 0 => 0, 1 => a, 2 => a ^ 1, _ => b1_rand(r) };
+    let (a, b) = if r.below(2) == 0 { (a, b) } else { (b, a) };
+    let mut w = a.to_le_bytes().to_vec(); w.extend_from_slice(&b.to_le_bytes()); w
+}
+/// byte strings for the strict decoders (n = canonical length)
+fn bvb_specials(n: usize) -> Vec<Vec<u8>> {
+    let mut v = Vec::new();
+    for k in [0usize, 1, 15, 16, 17, 31, 32, 33, 48] { v.push(vec![0u8; k]); v.push(vec![0xFFu8; k]); }
+    for hi in [0x7Fu8, 0x80, 0xFF, 0x00, 0x01] { for lo in [0x7Fu8, 0x80] {
+        let mut w = vec![0xA5u8; n]; w[n - 1] = hi; if n == 32 { w[15] = lo; } v.push(w);
+    } }
+    v
+}
+fn bvb_random(r: &mut Rng, n: usize) -> Vec<u8> {
+    let k = match r.below(6) { 0 => n - 1, 1 => n + 1, 2 => r.below(50) as usize, _ => n };
+    let mut b = Vec::new();
+    while b.len() < k + 16 { b.extend_from_slice(&b1_rand(r).to_le_bytes()); }
+    b.truncate(k);
+    if k == n && r.below(2) == 0 { b[n - 1] &= 0x7F; if n == 32 && r.below(4) != 0 { b[15] &= 0x7F; } }
+    b
+}
+fn bvb16_specials() -> Vec<Vec<u8>> { bvb_specials(16) }
+fn bvb32_specials() -> Vec<Vec<u8>> { bvb_specials(32) }
+fn bvb16_random(r: &mut Rng) -> Vec<u8> { bvb_random(r, 16) }
+fn bvb32_random(r: &mut Rng) -> Vec<u8> { bvb_random(r, 32) }
+
+fn reg_b127(v: &mut Vec<Case>) {
+    let e1 = Op::Custom { len: Some(16), specials: b1_specials, random: b1_random };
+    let vb = Op::Custom { len: None, specials: bvb16_specials, random: bvb16_random };
+    macro_rules! case { ($name:expr, $desc:expr, $ops:expr, |$o:ident| $body:expr) => {{
+        let ops: Vec<Op> = $ops; let opsc = ops.clone();
+        v.push(Case { id: format!("gfb127_{}", $name), describe: $desc, ops, run: Box::new(move |inp: &[u8]| -> Result<(), String> {
+            let $o = split(&opsc, inp).ok_or("bad input length")?; $body }) });
+    }}; }
+    let all = |rs: &[GFb127], want: u128, what: &str| -> Result<(), String> {
+        for (i, r) in rs.iter().enumerate() { let g = b1v(r)?; if g != want { return Err(format!("{} (form {}): got {:032x} want {:032x}", what, i, g, want)); } }
+        Ok(())
+    };
+    case!("add", "a+b == a-b == xor of the canonical values; -a == a; all operator forms", vec![e1.clone(), e1.clone()], |o| {
+        let (a, b) = (b1(o[0]), b1(o[1])); let want = bnorm(u128of(o[0])) ^ bnorm(u128of(o[1]));
+        all(&opv!(a, b, +, +=), want, "add")?; all(&opv!(a, b, -, -=), want, "sub")?;
+        all(&[-a, -&a], bnorm(u128of(o[0])), "neg") });
+    case!("mul", "a*b == polynomial product mod z^127+z^63+1 (u128 and BigUint references), all operator forms", vec![e1.clone(), e1.clone()], |o| {
+        let (a, b) = (b1(o[0]), b1(o[1])); let (x, y) = (bnorm(u128of(o[0])), bnorm(u128of(o[1])));
+        let want = bmul(x, y);
+        if want != bmul_big(x, y) { return Err("reference implementations disagree".into()); }
+        all(&opv!(a, b, *, *=), want, "mul") });
+    case!("square", "square(a) == a*a; xsquare(a,n) == a^(2^n) (n mod 140)", vec![e1.clone(), Op::U32], |o| {
+        let a = b1(o[0]); let x = bnorm(u128of(o[0])); let n = u32of(o[1]) % 140;
+        all(&[a.square()], bsq(x), "square")?;
+        all(&[a.xsquare(n)], bxsq(x, n), "xsquare") });
+    case!("div", "(a/b)*b == a for b != 0, a/0 == 0; invert(b)*b == 1, invert(0) == 0; all operator forms", vec![e1.clone(), e1.clone()], |o| {
+        let (a, b) = (b1(o[0]), b1(o[1])); let (x, y) = (bnorm(u128of(o[0])), bnorm(u128of(o[1])));
+        for (i, r) in opv!(a, b, /, /=).iter().enumerate() {
+            let g = b1v(r)?; if bmul(g, y) != if y == 0 { 0 } else { x } || (y == 0 && g != 0) { return Err(format!("div (form {}): got {:032x}", i, g)); }
+        }
+        let g = b1v(&b.invert())?;
+        chk(if y == 0 { g == 0 } else { bmul(g, y) == 1 }, || format!("invert: got {:032x}", g)) });
+    case!("sqrt", "sqrt(a)^2 == a", vec![e1.clone()], |o| {
+        let g = b1v(&b1(o[0]).sqrt())?;
+        chk(bsq(g) == bnorm(u128of(o[0])), || format!("sqrt: got {:032x}", g)) });
+    case!("trace", "trace(a) == sum of the 127 conjugates a^(2^i) (an element of GF(2)); documented value: coefficient of z^0", vec![e1.clone()], |o| {
+        let x = bnorm(u128of(o[0])); let t = btrace(x); let g = b1(o[0]).trace();
+        chk(t <= 1 && g as u128 == t && t == x & 1, || format!("trace: got {} reference {:x}", g, t)) });
+    case!("halftrace", "halftrace(a) == sum_{i=0..63} a^(4^i); H^2 + H == a + trace(a)", vec![e1.clone()], |o| {
+        let x = bnorm(u128of(o[0])); let g = b1v(&b1(o[0]).halftrace())?;
+        chk(g == bhalftrace(x) && bsq(g) ^ g == x ^ (x & 1), || format!("halftrace: got {:032x} want {:032x}", g, bhalftrace(x))) });
+    case!("smallmul", "mul_sb == *(1+z^27), mul_b == *(1+z^54), div_z*z == a, div_z2*z^2 == a", vec![e1.clone()], |o| {
+        let a = b1(o[0]); let x = bnorm(u128of(o[0]));
+        all(&[a.mul_sb()], bmul(x, 1 | (1 << 27)), "mul_sb")?; all(&[a.mul_b()], bmul(x, 1 | (1 << 54)), "mul_b")?;
+        let g = b1v(&a.div_z())?; chk(bmul(g, 2) == x, || format!("div_z: got {:032x}", g))?;
+        let g = b1v(&a.div_z2())?; chk(bmul(g, 4) == x, || format!("div_z2: got {:032x}", g)) });
+    case!("bits", "get_bit/set_bit/xor_bit act on coefficient k (0..=126) of the canonical value", vec![e1.clone(), Op::U32, Op::U32], |o| {
+        let a = b1(o[0]); let x = bnorm(u128of(o[0])); let k = (u32of(o[1]) % 127) as usize; let val = u32of(o[2]);
+        let g = a.get_bit(k); chk(g as u128 == (x >> k) & 1, || format!("get_bit({}): got {}", k, g))?;
+        let mut t = a; t.set_bit(k, val); all(&[t], (x & !(1u128 << k)) | (((val & 1) as u128) << k), "set_bit")?;
+        let mut t = a; t.xor_bit(k, val); all(&[t], x ^ (((val & 1) as u128) << k), "xor_bit") });
+    case!("cond", "set_cond / select / cswap copy or exchange exactly per ctl in {0, 0xFFFFFFFF}", vec![e1.clone(), e1.clone(), Op::Ctl], |o| {
+        let (a, b, ctl) = (b1(o[0]), b1(o[1]), u32of(o[2])); let (x, y) = (bnorm(u128of(o[0])), bnorm(u128of(o[1])));
+        if ctl != 0 && ctl != 0xFFFFFFFF { return Ok(()); }
+        let (wx, wy) = if ctl == 0 { (x, y) } else { (y, x) };
+        let mut t = a; t.set_cond(&b, ctl); all(&[t], wx, "set_cond")?;
+        all(&[GFb127::select(&a, &b, ctl)], wx, "select")?;
+        let (mut s, mut t) = (a, b); GFb127::cswap(&mut s, &mut t, ctl); all(&[s], wx, "cswap.0")?; all(&[t], wy, "cswap.1") });
+    case!("iszero", "iszero == 0xFFFFFFFF iff the value is 0 (both representations of zero) else 0", vec![e1.clone()], |o| {
+        let r = b1(o[0]).iszero(); let want = if bnorm(u128of(o[0])) == 0 { 0xFFFFFFFFu32 } else { 0 };
+        chk(r == want, || format!("iszero: got {:08x} want {:08x}", r, want)) });
+    case!("equals", "equals == 0xFFFFFFFF iff the values are equal (every representation) else 0", vec![e1.clone(), e1.clone()], |o| {
+        let r = b1(o[0]).equals(b1(o[1])); let want = if bnorm(u128of(o[0])) == bnorm(u128of(o[1])) { 0xFFFFFFFFu32 } else { 0 };
+        chk(r == want, || format!("equals: got {:08x} want {:08x}", r, want)) });
+    case!("encode", "encode == 16-byte LE canonical value (bit 127 clear)", vec![e1.clone()], |o| {
+        let e = b1(o[0]).encode();
+        chk(u128::from_le_bytes(e) == bnorm(u128of(o[0])), || format!("encode: got {}", hex(&e))) });
+    case!("decode_ct", "decode_ct / set_decode_ct (on a non-zero value) / decode: (value, 0xFFFFFFFF) iff len == 16 and top bit clear, else (zero, 0)", vec![vb.clone()], |o| {
+        let buf = o[0]; let valid = buf.len() == 16 && buf[15] & 0x80 == 0;
+        let check = |r: &GFb127, cc: u32, what: &str| -> Result<(), String> {
+            let e = r.encode();
+            if valid { chk(cc == 0xFFFFFFFF && e[..] == buf[..], || format!("{}(valid): cc={:08x} {}", what, cc, hex(&e))) }
+            else { chk(cc == 0 && e == [0u8; 16] && r.iszero() == 0xFFFFFFFF, || format!("{}(invalid): cc={:08x} {}", what, cc, hex(&e))) }
+        };
+        let (r, cc) = GFb127::decode_ct(buf); check(&r, cc, "decode_ct")?;
+        let mut r = GFb127::w64le(0x1234, 0x5678); let cc = r.set_decode_ct(buf); check(&r, cc, "set_decode_ct")?;
+        match GFb127::decode(buf) { Some(r) => { chk(valid, || "decode accepted invalid input".into())?; check(&r, 0xFFFFFFFF, "decode") } None => chk(!valid, || "decode rejected valid input".into()) } });
+}
+
+fn reg_b254(v: &mut Vec<Case>) {
+    let e1 = Op::Custom { len: Some(16), specials: b1_specials, random: b1_random };
+    let e2 = Op::Custom { len: Some(32), specials: b2_specials, random: b2_random };
+    let vb = Op::Custom { len: None, specials: bvb32_specials, random: bvb32_random };
+    macro_rules! case { ($name:expr, $desc:expr, $ops:expr, |$o:ident| $body:expr) => {{
+        let ops: Vec<Op> = $ops; let opsc = ops.clone();
+        v.push(Case { id: format!("gfb254_{}", $name), describe: $desc, ops, run: Box::new(move |inp: &[u8]| -> Result<(), String> {
+            let $o = split(&opsc, inp).ok_or("bad input length")?; $body }) });
+    }}; }
+    let all = |rs: &[GFb254], want: B2, what: &str| -> Result<(), String> {
+        for (i, r) in rs.iter().enumerate() { let g = b2v(r)?; if g != want { return Err(format!("{} (form {}): got {:032x}+u*{:032x} want {:032x}+u*{:032x}", what, i, g.0, g.1, want.0, want.1)); } }
+        Ok(())
+    };
+    case!("add", "a+b == a-b == component-wise xor; -a == a; all operator forms", vec![e2.clone(), e2.clone()], |o| {
+        let (a, b) = (b2(o[0]), b2(o[1])); let (x, y) = (b2in(o[0]), b2in(o[1])); let want = (x.0 ^ y.0, x.1 ^ y.1);
+        all(&opv!(a, b, +, +=), want, "add")?; all(&opv!(a, b, -, -=), want, "sub")?; all(&[-a, -&a], x, "neg") });
+    case!("mul", "a*b == product in GF(2^127)[u]/(u^2+u+1), all operator forms", vec![e2.clone(), e2.clone()], |o| {
+        let (a, b) = (b2(o[0]), b2(o[1]));
+        all(&opv!(a, b, *, *=), b2mul(b2in(o[0]), b2in(o[1])), "mul") });
+    case!("mul_b127", "mul_b127(a, c) == a*(c + 0*u); set_mul_b127 idem", vec![e2.clone(), e1.clone()], |o| {
+        let (a, cc) = (b2(o[0]), b1(o[1])); let want = b2mul(b2in(o[0]), (bnorm(u128of(o[1])), 0));
+        let mut t = a; t.set_mul_b127(&cc);
+        all(&[a.mul_b127(&cc), t], want, "mul_b127") });
+    case!("smallmul", "mul_u == *u, mul_u1 == *(u+1), mul_sb == *(1+z^27), mul_b == *(1+z^54), div_z*z == a, div_z2*z^2 == a, mul_selfphi == a*a^(2^127)", vec![e2.clone()], |o| {
+        let a = b2(o[0]); let x = b2in(o[0]);
+        all(&[a.mul_u()], b2mul(x, (0, 1)), "mul_u")?; all(&[a.mul_u1()], b2mul(x, (1, 1)), "mul_u1")?;
+        all(&[a.mul_sb()], b2mul(x, (1 | (1 << 27), 0)), "mul_sb")?; all(&[a.mul_b()], b2mul(x, (1 | (1 << 54), 0)), "mul_b")?;
+        let g = b2v(&a.div_z())?; chk(b2mul(g, (2, 0)) == x, || format!("div_z: got {:x?}", g))?;
+        let g = b2v(&a.div_z2())?; chk(b2mul(g, (4, 0)) == x, || format!("div_z2: got {:x?}", g))?;
+        let n = b2mul(x, b2xsq(x, 127)); let g = b1v(&a.mul_selfphi())?;
+        chk(n.1 == 0 && g == n.0, || format!("mul_selfphi: got {:032x} want {:x?}", g, n)) });
+    case!("square", "square(a) == a*a; xsquare(a,n) == a^(2^n) (n mod 70)", vec![e2.clone(), Op::U32], |o| {
+        let a = b2(o[0]); let x = b2in(o[0]); let n = u32of(o[1]) % 70;
+        all(&[a.square()], b2mul(x, x), "square")?; all(&[a.xsquare(n)], b2xsq(x, n), "xsquare") });
+    case!("div", "(a/b)*b == a for b != 0, a/0 == 0; invert(b)*b == 1, invert(0) == 0; all operator forms", vec![e2.clone(), e2.clone()], |o| {
+        let (a, b) = (b2(o[0]), b2(o[1])); let (x, y) = (b2in(o[0]), b2in(o[1])); let yz = y == (0, 0);
+        for (i, r) in opv!(a, b, /, /=).iter().enumerate() {
+            let g = b2v(r)?; if if yz { g != (0, 0) } else { b2mul(g, y) != x } { return Err(format!("div (form {}): got {:x?}", i, g)); }
+        }
+        let g = b2v(&b.invert())?;
+        chk(if yz { g == (0, 0) } else { b2mul(g, y) == (1, 0) }, || format!("invert: got {:x?}", g)) });
+    case!("sqrt", "sqrt(a)^2 == a", vec![e2.clone()], |o| {
+        let g = b2v(&b2(o[0]).sqrt())?;
+        chk(b2mul(g, g) == b2in(o[0]), || format!("sqrt: got {:x?}", g)) });
+    case!("trace", "trace(a) == sum of the 254 conjugates a^(2^i) (an element of GF(2)); documented value: trace over GF(2^127) of the u-coefficient", vec![e2.clone()], |o| {
+        let x = b2in(o[0]); let t = b2trace(x); let g = b2(o[0]).trace();
+        chk(t.1 == 0 && t.0 <= 1 && g as u128 == t.0 && t.0 == x.1 & 1, || format!("trace: got {} reference {:x?}", g, t)) });
+    case!("qsolve", "x = qsolve(a): x^2 + x == a + u*trace(a) (hence x^2 + x == a when trace(a) == 0)", vec![e2.clone()], |o| {
+        let a = b2in(o[0]); let x = b2v(&b2(o[0]).qsolve())?; let t = b2trace(a).0;
+        let l = b2mul(x, x);
+        chk((l.0 ^ x.0, l.1 ^ x.1) == (a.0, a.1 ^ t), || format!("qsolve: got {:x?}", x)) });
+    case!("cond", "set_cond / select / cswap copy or exchange exactly per ctl in {0, 0xFFFFFFFF}", vec![e2.clone(), e2.clone(), Op::Ctl], |o| {
+        let (a, b, ctl) = (b2(o[0]), b2(o[1]), u32of(o[2])); let (x, y) = (b2in(o[0]), b2in(o[1]));
+        if ctl != 0 && ctl != 0xFFFFFFFF { return Ok(()); }
+        let (wx, wy) = if ctl == 0 { (x, y) } else { (y, x) };
+        let mut t = a; t.set_cond(&b, ctl); all(&[t], wx, "set_cond")?;
+        all(&[GFb254::select(&a, &b, ctl)], wx, "select")?;
+        let (mut s, mut t) = (a, b); GFb254::cswap(&mut s, &mut t, ctl); all(&[s], wx, "cswap.0")?; all(&[t], wy, "cswap.1") });
+    case!("iszero", "iszero == 0xFFFFFFFF iff both components are 0 (every representation) else 0", vec![e2.clone()], |o| {
+        let r = b2(o[0]).iszero(); let want = if b2in(o[0]) == (0, 0) { 0xFFFFFFFFu32 } else { 0 };
+        chk(r == want, || format!("iszero: got {:08x} want {:08x}", r, want)) });
+    case!("equals", "equals == 0xFFFFFFFF iff the values are equal (every representation) else 0", vec![e2.clone(), e2.clone()], |o| {
+        let r = b2(o[0]).equals(b2(o[1])); let want = if b2in(o[0]) == b2in(o[1]) { 0xFFFFFFFFu32 } else { 0 };
+        chk(r == want, || format!("equals: got {:08x} want {:08x}", r, want)) });
+    case!("encode", "encode == LE16(x0) || LE16(x1), canonical; w64le / b127 / from_b127 / to_components / constants consistent", vec![e2.clone()], |o| {
+        let a = b2(o[0]); let x = b2in(o[0]);
+        let (c0, c1) = (b1(&o[0][..16]), b1(&o[0][16..]));
+        let (t0, t1) = a.to_components();
+        chk((b1v(&t0)?, b1v(&t1)?) == x, || "to_components".to_string())?;
+        all(&[a, GFb254::b127(c0, c1), GFb254::from_b127(c0, c1)], x, "constructors")?;
+        all(&[GFb254::ZERO], (0, 0), "ZERO")?; all(&[GFb254::ONE], (1, 0), "ONE")?; all(&[GFb254::U], (0, 1), "U") });
+    case!("decode_ct", "decode_ct / set_decode_ct (on a non-zero value) / decode: (value, 0xFFFFFFFF) iff len == 32 and both top bits clear, else (zero, 0)", vec![vb.clone()], |o| {
+        let buf = o[0]; let valid = buf.len() == 32 && (buf[15] | buf[31]) & 0x80 == 0;
+        let check = |r: &GFb254, cc: u32, what: &str| -> Result<(), String> {
+            let e = r.encode();
+            if valid { chk(cc == 0xFFFFFFFF && e[..] == buf[..], || format!("{}(valid): cc={:08x} {}", what, cc, hex(&e))) }
+            else { chk(cc == 0 && e == [0u8; 32] && r.iszero() == 0xFFFFFFFF, || format!("{}(invalid): cc={:08x} {}", what, cc, hex(&e))) }
+        };
+        let (r, cc) = GFb254::decode_ct(buf); check(&r, cc, "decode_ct")?;
+        let mut r = GFb254::w64le(0x1234, 0x5678, 0x9ABC, 0xDEF0); let cc = r.set_decode_ct(buf); check(&r, cc, "set_decode_ct")?;
+        match GFb254::decode(buf) { Some(r) => { chk(valid, || "decode accepted invalid input".into())?; check(&r, 0xFFFFFFFF, "decode") } None => chk(!valid, || "decode rejected valid input".into()) } });
+    case!("lookup", "lookup16_x2/lookup8_x2/lookup4_x2: entries 2j, 2j+1 for j in range, zeros otherwise (every u32 j); lookup4_x2_nocheck for j < 4", vec![Op::Raw(32 * 32), Op::U32], |o| {
+        let mut tab = [GFb254::ZERO; 32]; let mut tv = [(0u128, 0u128); 32];
+        for i in 0..32 { tab[i] = b2(&o[0][32 * i..]); tv[i] = b2in(&o[0][32 * i..]); }
+        let j = u32of(o[1]);
+        let t16 = tab; let t8: [GFb254; 16] = tab[..16].try_into().unwrap(); let t4: [GFb254; 8] = tab[..8].try_into().unwrap();
+        let want = |n: u32, k: usize| if j < n { tv[2 * j as usize + k] } else { (0, 0) };
+        let r = GFb254::lookup16_x2(&t16, j); for k in 0..2 { all(&[r[k]], want(16, k), "lookup16_x2")?; }
+        let r = GFb254::lookup8_x2(&t8, j); for k in 0..2 { all(&[r[k]], want(8, k), "lookup8_x2")?; }
+        let r = GFb254::lookup4_x2(&t4, j); for k in 0..2 { all(&[r[k]], want(4, k), "lookup4_x2")?; }
+        if j < 4 { let r = GFb254::lookup4_x2_nocheck(&t4, j); for k in 0..2 { all(&[r[k]], want(4, k), "lookup4_x2_nocheck")?; } }
+        Ok(()) });
+}
 
 pub fn register(v: &mut Vec<Case>) {
     reg_pf::<crrl::field::GFp256>(v, "modint", "gfp256");
@@ -669,4 +972,23 @@ pub fn register(v: &mut Vec<Case>) {
     reg_pf::<GFsecp256k1>(v, "gfsecp256k1", "");
     reg_pf::<GF448>(v, "gf448", "");
     reg_pf::<Ed448Scalar>(v, "gfgen", "ed448scalar");
+    reg_b127(v);
+    reg_b254(v);
+    // the `encode()` alias that each concrete 256-bit type defines on top of the generic ModInt256
+    macro_rules! enc_alias { ($t:ty, $tag:expr) => {{
+        let ops = vec![Op::Custom { len: Some(32), specials: el_specials::<$t>, random: el_random::<$t> }];
+        let opsc = ops.clone(); let cx = ctx::<$t>();
+        v.push(Case { id: format!("modint_encode_alias@{}", $tag), describe: "encode() == encode32() == canonical LE32 encoding of the value", ops,
+            run: Box::new(move |inp: &[u8]| -> Result<(), String> {
+                let o = split(&opsc, inp).ok_or("bad input length")?;
+                let a = <$t as PF>::mk(o[0]); let e = a.encode();
+                chk(e == a.encode32() && e.to_vec() == int_to_le(&in_val::<$t>(&cx, o[0]), 32), || format!("encode: got {}", hex(&e))) }) });
+    }}; }
+    enc_alias!(crrl::field::GFp256, "gfp256");
+    enc_alias!(crrl::ed25519::Scalar, "ed25519scalar");
+    enc_alias!(crrl::p256::Scalar, "p256scalar");
+    enc_alias!(crrl::secp256k1::Scalar, "secp256k1scalar");
+    enc_alias!(crrl::jq255e::Scalar, "jq255escalar");
+    enc_alias!(crrl::jq255s::Scalar, "jq255sscalar");
+    enc_alias!(crrl::gls254::Scalar, "gls254scalar");
 }
